@@ -9,16 +9,18 @@
 (***************************************************************************)
 EXTENDS NoiseNames, TLC, Json, IOUtils
 
+CONSTANT HfsBuild      \* the strings were parsed by the hfs build of the crate (another parsing function)
 Recs == ndJsonDeserialize(IOEnv.NAMES_FILE)
 
 VARIABLE i
 Judge(r) ==
-  LET e == ParseName(r.s) IN
+  LET e == ParseNameH(r.s, HfsBuild) IN
   IF r.err = "panic" THEN "panic"
   ELSE IF e.ok # r.ok THEN (IF e.ok THEN "rejected a valid name" ELSE "accepted an invalid name")
   ELSE IF ~r.ok THEN (IF SubSeq(r.err, 1, 8) = "Pattern(" THEN "ok" ELSE "not a pattern error")
   ELSE IF ~r.verbatim THEN "name not preserved verbatim"
   ELSE IF e.pat # r.pat \/ e.dh # r.dh \/ e.cipher # r.cipher \/ e.hash # r.hash THEN "wrong component"
+  ELSE IF HfsBuild /\ e.kem # r.kem THEN "wrong kem component"
   ELSE IF Len(e.mods) # Len(r.mods) THEN "wrong modifier list"
   ELSE IF \E k \in 1..Len(e.mods) : e.mods[k].kind # r.mods[k].kind \/ e.mods[k].n # r.mods[k].n THEN "wrong modifier"
   ELSE "ok"
